@@ -174,13 +174,26 @@ pub fn gen_data(r: &mut Rng, rtype: u16, pool: bool) -> GData {
             gen_name(r, pool),
             [r.next() as u32, r.next() as u32, r.next() as u32, r.next() as u32, r.next() as u32],
         ),
-        T_NULL => GData::Null((0..r.below(20)).map(|_| r.byte()).collect()),
-        T_WKS => GData::Wks(r.next() as u32, r.byte(), (0..r.below(10)).map(|_| r.byte()).collect()),
+        T_NULL => GData::Null((0..blob_len(r, 20)).map(|_| r.byte()).collect()),
+        T_WKS => GData::Wks(r.next() as u32, r.byte(), (0..blob_len(r, 10)).map(|_| r.byte()).collect()),
         T_HINFO => GData::Hinfo(char_string(r, 8), char_string(r, 8)),
         T_MINFO => GData::Minfo(gen_name(r, pool), gen_name(r, pool)),
         T_MX => GData::Mx(r.next() as u16, gen_name(r, pool)),
-        T_TXT => GData::Txt((0..r.below(4)).map(|_| char_string(r, 12)).collect()),
-        _ => GData::Raw((0..r.below(16)).map(|_| r.byte()).collect()),
+        T_TXT => {
+            // now and then more strings than a `u8` counts
+            let n = if r.chance(1, 40) { r.range(255, 300) } else { r.below(4) };
+            GData::Txt((0..n).map(|_| char_string(r, if n > 4 { 3 } else { 12 })).collect())
+        }
+        _ => GData::Raw((0..blob_len(r, 16)).map(|_| r.byte()).collect()),
+    }
+}
+
+/// length of an opaque blob: mostly below `short`, now and then past the 8-bit and 10-bit marks
+fn blob_len(r: &mut Rng, short: u64) -> u64 {
+    if r.chance(1, 30) {
+        *r.pick(&[255u64, 256, 257, 300, 1023, 1024, 1500])
+    } else {
+        r.below(short)
     }
 }
 
@@ -233,6 +246,8 @@ pub fn gen_msg(r: &mut Rng, pool: bool) -> GMsg {
         2 => r.range(0, 3) as usize,
         _ => 1,
     };
+    // one message in eighty has more questions than a `u8` counts
+    let nq = if r.chance(1, 80) { r.range(255, 258) as usize } else { nq };
     let questions: Vec<(GName, u16, u16)> = (0..nq)
         .map(|_| {
             (
@@ -250,6 +265,8 @@ pub fn gen_msg(r: &mut Rng, pool: bool) -> GMsg {
             3..=5 => r.range(1, 2),
             _ => r.range(2, 5),
         };
+        // one section in sixty has more records than a `u8` counts
+        let n = if r.chance(1, 60) { r.range(255, 300) } else { n };
         for _ in 0..n {
             let rec = gen_rec(r, pool, &owners);
             owners.push(rec.owner.clone());
